@@ -94,6 +94,7 @@ func TestC15(t *testing.T) {
 	// every history (= path of the BFS tree) is one cell per protocol
 	var cells []Cell
 	var hs []hist
+	slow := 0
 	for _, proto := range []string{"netrpc", "grpc"} {
 		for _, h := range all {
 			var ops, names []string
@@ -111,6 +112,35 @@ func TestC15(t *testing.T) {
 				Ops:    ops,
 			})
 			hs = append(hs, h)
+		}
+	}
+	// a plugin whose process needs 20 s to exit after the shutdown request (cleanup after Serve returned): Kill on a
+	// reattached client must still terminate it (the grace period is 2 s, then the pid is killed)
+	for _, proto := range []string{"netrpc", "grpc"} {
+		for _, h := range all {
+			if len(h.events) > 3 || h.st.alive || !h.st.killed {
+				continue
+			}
+			viaReattached := false
+			var ops, names []string
+			for _, e := range h.events {
+				ops = append(ops, e.ops...)
+				names = append(names, e.name)
+				if strings.HasPrefix(e.name, "K(") && e.name != "K(0)" {
+					viaReattached = true
+				}
+			}
+			if !viaReattached {
+				continue
+			}
+			cells = append(cells, Cell{
+				Name:   fmt.Sprintf("%s slow-exit history=[%s]", proto, strings.Join(names, " ")),
+				Plugin: PluginConf{CookieKey: cookieKey, CookieValue: cookieVal, Legacy: 1, LegacyProto: proto, GRPCServer: true, TLS: "none", ExitDelayMs: 20000},
+				Host:   HostConf{Allowed: []string{"netrpc", "grpc"}, TLS: "none", Launch: "cmd", Legacy: 1},
+				Ops:    ops,
+			})
+			hs = append(hs, h)
+			slow++
 		}
 	}
 	nReal := len(cells)
@@ -151,7 +181,7 @@ func TestC15(t *testing.T) {
 			continue
 		}
 		if i < nReal {
-			h := hs[i%len(all)]
+			h := hs[i]
 			k := 0
 			for _, e := range h.events {
 				for j, want := range e.expect {
@@ -161,6 +191,9 @@ func TestC15(t *testing.T) {
 					}
 					o := r.Ops[k]
 					k++
+					if strings.Contains(c.Name, "slow-exit") && strings.HasPrefix(o.Op, "kill") && o.Ms > 8000 {
+						bad("%s: %s took %d ms: the slow plugin was not force-killed after the grace period", e.name, o.Op, o.Ms)
+					}
 					switch {
 					case want == "ok" && o.Err != "":
 						bad("%s: %s failed: %s", e.name, o.Op, o.Err)
